@@ -71,8 +71,7 @@ def run_verus(path, seed, rlimit, only_fn=None, threads=None):
     cmd = [VERUS, os.path.basename(path), "--output-json", "--time", "--error-format=json",
            "--triggers-mode", "silent", "--multiple-errors", "50", "--rlimit", str(rlimit),
            "--smt-option", f"smt.random_seed={seed % 1000}", "--no-report-long-running"]
-    if threads:
-        cmd += ["--num-threads", str(threads)]
+    cmd += ["--num-threads", str(threads or int(os.environ.get("VX_THREADS", "8")))]
     if only_fn:
         cmd += ["--verify-root", "--verify-function", only_fn]
     t0 = time.time()
@@ -154,6 +153,16 @@ def classify(unit, g, res):
                 if o.get("kind") == "src":
                     site = " ".join(" ".join(t["text"] for t in s.get("text", [])).split())[:200]
                     src_loc = f"{o.get('file')}:{o.get('line')}"
+        if not label and "decreases not satisfied" in low and prim is not None:
+            # termination of a loop: Verus points at the loop header, not at the clause. If the unit gave the loop's `decreases`
+            # a label (termination is part of the property there), the failure carries it (clauses follow the header line).
+            k = prim["line_start"]
+            while k < len(g.origin) and g.origin[k].get("kind") in ("clause", "gen"):
+                o = g.origin[k]
+                if o.get("kind") == "clause" and str(o.get("clause", "")).endswith(".decreases") and o.get("label"):
+                    label, clause_text, kind, clause_hit = o["label"], o.get("text", ""), o.get("clause"), True
+                    break
+                k += 1
         if fn is None and prim is not None:
             fn = unit.fn_of_line(prim["line_start"])
         if fn is None and label:
@@ -209,7 +218,7 @@ def run_unit(name, seed, tier):
         r["undecided"].append(str(e))
         return r
     path = os.path.join(RUN_DIR, name + os.environ.get("VX_BUILD_SUFFIX", "") + ".rs")
-    open(path, "w").write(g.text())
+    open(path, "w").write(g.text_parallel())
     rlimit = u.cfg.get("unit", {}).get("rlimit", 20)
     res = run_verus(path, seed, rlimit)
     r["cmd"] = res["cmd"]
@@ -246,7 +255,7 @@ def run_unit(name, seed, tier):
             us = Unit(name)
             gs = us.generate(smoke=True)
             spath = os.path.join(RUN_DIR, name + os.environ.get("VX_BUILD_SUFFIX", "") + "_smoke.rs")
-            open(spath, "w").write(gs.text())
+            open(spath, "w").write(gs.text_parallel())
             sres = run_verus(spath, seed, rlimit)
             r["wall"] += sres["wall"]
             svr = sres["out"].get("verification-results", {})
@@ -301,7 +310,9 @@ def _selftest_one(job):
         return dict(unit=unit, mutant=name, breaking=breaking, outcome=outcome, labels=labels[:6])
     finally:
         shutil.rmtree(scratch, ignore_errors=True)
-        for fpath in glob.glob(os.path.join(BUILD, "*_st_" + re.sub(r"[^A-Za-z0-9]", "_", name) + "*")):
+        # (exact suffix: a prefix glob `*_st_<unit>_M1*` would also delete the files of the concurrently running M10..M19)
+        sfx = "*_st_" + re.sub(r"[^A-Za-z0-9]", "_", name)
+        for fpath in glob.glob(os.path.join(BUILD, sfx + ".*")) + glob.glob(os.path.join(BUILD, sfx + "_smoke.*")):
             try:
                 os.remove(fpath)
             except OSError:
